@@ -26,7 +26,13 @@ SPEC = {
                    "record counters and stacks of the SAME names, approved / rated / omitted differently per program, "
                    "files in random order; 8% have two different programs with the same base name, version and platform, one "
                    "approved; half of the cases name the count files as rotate1 does (begin days spread over the "
-                   "week); 10% of the cases (kind seq) are HISTORIES: this one process runs a new "
+                   "week); 2% of the cases (kind runs) call the real upload.Run (configuration downloaded by the "
+                   "go command from a file:// proxy, HTTP upload to a local server) two or three times in this one "
+                   "process with the same environment while the configuration module publishes a new version "
+                   "(approvals withdrawn / added) and the next week expires in between; 6% of the stack counters are "
+                   "deep ditto-compressed stacks whose decoded name lands on either side of the 4096-byte name limit "
+                   "(stored name within it); the files given to the model are the REFERENCE reading of what was "
+                   "written (own decoder), the real parser's reading is an observable; 10% of the cases (kind seq) are HISTORIES: this one process runs a new "
                    "uploader two or three times on the same directory while the count files change in between "
                    "(run while the files are active - programs count on - files expire - run; or run consuming a "
                    "week - same file names written for the next week - run), each run compared with the model and "
@@ -44,7 +50,8 @@ SPEC = {
                   "iff no counters; programs of a report filtered independently of each other and of their order; "
                   "histories: with the parse cache explicit, every run of a process reports the expired files of "
                   "the directory as it is at that run (cache transparent when consistent, empty at each Run; a "
-                  "stale cache is exhibited to differ); expansion specified for the documented syntax and in general; the shared rate "
+                  "stale cache is exhibited to differ); a Run fetches the newest configuration version of the store "
+                  "it finds and its upload is filtered by that version, whatever earlier Runs fetched; expansion specified for the documented syntax and in general; the shared rate "
                   "table characterised (one of the configured rates; THE rate when unambiguous); the executable "
                   "oracle used on the implementation's reports is proved sound (acceptance implies the property's "
                   "clauses in Prop form with true sums) and to accept the model's reports outside the two known "
@@ -63,7 +70,7 @@ SPEC = {
     "assumptions": [
         "rates, SampleRate and X are non-negative, non-NaN float64 values (config range [0,1]); their order is the order of their bit patterns",
         "encoding/json round-trips the report (names are valid UTF-8); the reports are compared as parsed structures",
-        "counter.Parse yields the metadata and Count map the harness sends (C06's concern); the model starts from parsed files",
+        "the model starts from the reference reading of the written count files (harness decoder of the documented stack-name compression); counter.Parse agreeing with it is observed per file (C06 proves it)",
         "the gate (mode on, week not too old, as-of before the data) is an input boolean here; its computation is property C02",
         "histories: each upload.Run builds a new uploader (empty parse cache) and the directory does not change DURING a run; grouping of expired files by week and LastWeek are C07/C09 (one week expires per run in the suite)",
     ],
